@@ -90,10 +90,12 @@ func (t *Target) URL(cfg *config.ScrapeConfig) *url.URL {
 		copy(params[k], v)
 	}
 	for _, l := range t.Labels {
-		if !strings.HasPrefix(l.Name, model.ParamLabelPrefix) {
+		// a param label that relabeling changed is shipped with the invalid-label prefix
+		name := strings.TrimPrefix(l.Name, PrefixForInvalidLabelName)
+		if !strings.HasPrefix(name, model.ParamLabelPrefix) {
 			continue
 		}
-		ks := l.Name[len(model.ParamLabelPrefix):]
+		ks := name[len(model.ParamLabelPrefix):]
 
 		if len(params[ks]) > 0 {
 			params[ks][0] = l.Value
